@@ -923,6 +923,143 @@ pub fn case_sweep(bytes: &[u8], ctx: &mut Ctx) -> CaseResult {
 }
 
 // ---------------------------------------------------------------------------
+// 8. long lists (see vstream::biglist): the list decoder pre-allocates at most
+// 2 MiB worth of elements; lists longer than that are decoded in whatever way
+// the implementation chooses, and the length prefix still has to be honoured
+// exactly. The inputs are *derived from the valid encoding of a long list*:
+// further well-formed elements behind the last one, the prefix off by one, the
+// last element missing.
+
+fn big() -> &'static Vec<vstream::biglist::BigList> {
+    static B: OnceLock<Vec<vstream::biglist::BigList>> = OnceLock::new();
+    B.get_or_init(vstream::biglist::big_lists)
+}
+
+fn big_lengths(b: &vstream::biglist::BigList, tier: Tier) -> Vec<usize> {
+    let wire = (b.more)(0, 1, 0).len();
+    let heavy = tier == Tier::Thorough;
+    let mut l = vstream::biglist::lengths(b.elem_size_of, wire, heavy);
+    if !heavy && !b.slow && b.elem_size_of > 0 {
+        let t = vstream::biglist::PREALLOC_BYTES / b.elem_size_of;
+        l.extend_from_slice(&[t + t / 2, 2 * t + 1]);
+        l.sort_unstable();
+        l.dedup();
+    }
+    l
+}
+
+fn enum_big(tier: Tier, shard: usize, n: usize, emit: &mut dyn FnMut(&[u8]) -> bool) {
+    let seeds: u8 = match tier {
+        Tier::Quick => 1,
+        Tier::Thorough => 4,
+    };
+    let mut idx = 0usize;
+    for (li, b) in big().iter().enumerate() {
+        for ni in 0..big_lengths(b, tier).len() as u8 {
+            for seed in 0..seeds {
+                let mine = idx % n == shard;
+                idx += 1;
+                if mine && !emit(&[li as u8, ni, seed, u8::from(tier == Tier::Thorough)]) {
+                    return;
+                }
+            }
+        }
+    }
+}
+
+/// bytes = [list type, length index, seed, tier of the length table]
+pub fn case_big(bytes: &[u8], ctx: &mut Ctx) -> CaseResult {
+    use vstream::biglist::Shape;
+    ensure_hook();
+    let mut s = Src::new(bytes);
+    let (li, ni, seed, th) = (s.u8() as usize, s.u8() as usize, u64::from(s.u8()), s.u8());
+    let b = &big()[li % big().len()];
+    let lens = big_lengths(b, if th & 1 == 1 { Tier::Thorough } else { Tier::Quick });
+    let n = lens[ni % lens.len()];
+    let e = &b.entry;
+    let thr = if b.elem_size_of > 0 { vstream::biglist::PREALLOC_BYTES / b.elem_size_of } else { usize::MAX };
+    let enc = (b.make)(n, seed).to_bytes().expect("a list of generated elements encodes");
+    let list_bytes = (b.more)(0, n, seed);
+    let at = b.prefix_at;
+    assert_eq!(&enc[at..at + 4], &(n as u32).to_be_bytes(), "length prefix of {} where expected", b.name);
+    let end = at + 4 + list_bytes.len();
+    assert_eq!(&enc[at + 4..end], &list_bytes[..], "elements of {} where expected", b.name);
+    let what = format!("{} with {n} elements (pre-allocation limit {thr} elements)", b.name);
+
+    let o = probe(e, &enc, ctx)?;
+    if !(o.ok_untrusted && o.ok_trusted) {
+        ctx.label("valid-encoding-rejected(see-C13)");
+    }
+    let mut inner = 1u64;
+    // splice position behind the last element: certain rejection needs the list
+    // to be followed by nothing or by a fixed-size field
+    let splice_ok = matches!(b.shape, Shape::Bare | Shape::ThenU32 | Shape::PhUpdatesStates);
+    let wire1 = (b.more)(n, 1, seed).len();
+    if splice_ok && wire1 > 0 {
+        let mut ms = vec![1usize];
+        if thr != usize::MAX && thr > 0 {
+            // up to the next multiple of the pre-allocation limit, and one more
+            let fill = thr - (n % thr);
+            ms.push(fill);
+            ms.push(fill + 1);
+        }
+        if n > 0 && n <= 2 * thr.min(1 << 22) {
+            ms.push(n);
+        }
+        ms.sort_unstable();
+        ms.dedup();
+        for m in ms {
+            let extra = (b.more)(n, m, seed);
+            let mut x = Vec::with_capacity(enc.len() + extra.len());
+            x.extend_from_slice(&enc[..end]);
+            x.extend_from_slice(&extra);
+            x.extend_from_slice(&enc[end..]);
+            must_reject(
+                e,
+                &x,
+                &format!("({what}) with {m} further well-formed elements behind the last one, length prefix unchanged"),
+                "big-list:elements-beyond-length-prefix-accepted",
+                ctx,
+            )?;
+            inner += 1;
+        }
+        // prefix off by one, data unchanged
+        let mut x = enc.clone();
+        x[at..at + 4].copy_from_slice(&((n + 1) as u32).to_be_bytes());
+        must_reject(e, &x, &format!("({what}) with its length prefix increased by one"), "big-list:missing-element-accepted", ctx)?;
+        inner += 1;
+        if n > 0 {
+            let mut x = enc.clone();
+            x[at..at + 4].copy_from_slice(&((n - 1) as u32).to_be_bytes());
+            must_reject(e, &x, &format!("({what}) with its length prefix decreased by one"), "big-list:elements-beyond-length-prefix-accepted", ctx)?;
+            inner += 1;
+        }
+    }
+    // trailing / missing bytes at the very end
+    let mut x = enc.clone();
+    x.push(seed as u8);
+    must_reject(e, &x, &format!("({what}) followed by one trailing byte"), "trailing-bytes-accepted", ctx)?;
+    must_reject(e, &enc[..enc.len() - 1], &format!("({what}) with its last byte missing"), "missing-byte-accepted", ctx)?;
+    inner += 2;
+    ctx.add_inner(inner);
+    ctx.label(format!("big:{}", b.name));
+    ctx.label(if n > thr {
+        "big-length:above-prealloc-limit"
+    } else if n == thr {
+        "big-length:at-prealloc-limit"
+    } else {
+        "big-length:below-prealloc-limit"
+    });
+    if n >= thr {
+        let mut f = Fnv::new();
+        f.write(b.name.as_bytes()).write_u64(n as u64).write_u64(seed);
+        ctx.nontrivial(f.finish());
+    }
+    ctx.render(|| format!("{what}, seed {seed}: valid encoding of {} bytes {}", enc.len(), hx(&enc)));
+    Ok(())
+}
+
+// ---------------------------------------------------------------------------
 
 pub fn run_main() {
     let prop = Property {
@@ -1006,6 +1143,23 @@ pub fn run_main() {
                 inflight: true,
                 min_nontrivial: 15_000,
                 required_labels: &["ok", "err:InvalidPoS", "err:InvalidFullBlock", "err:InvalidEnum"],
+            },
+            SubCheck {
+                name: "big-lists",
+                about: "valid encodings of lists around the decoder's 2 MiB pre-allocation limit of their element type (and multiples): further well-formed elements behind the last one (1, up to the next multiple of the limit, as many again), length prefix off by one, trailing / missing byte; 18 element types x {bare, followed by a field} + RespondToPhUpdates",
+                source: Source::Enumerate { f: enum_big, exhaustive: false },
+                run: case_big,
+                inflight: true,
+                min_nontrivial: 150,
+                required_labels: &[
+                    "big-length:above-prealloc-limit",
+                    "big-length:at-prealloc-limit",
+                    "big-length:below-prealloc-limit",
+                    "big:Vec<u32>",
+                    "big:(Vec<CoinState>,u32)",
+                    "big:RespondToPhUpdates.coin_states",
+                    "big:Vec<G1Element>",
+                ],
             },
         ],
     };
